@@ -4,7 +4,7 @@
    afkak._group.Coordinator (grp = false) / ConsumerGroup (grp = true) after the arbitrary event list evs:
    API calls, replies and failures of every request, timer firings, consumer failures and shutdown completions, in any
    order, including events the environment cannot produce (no-ops).  Never weaken a statement here. *)
-From AV Require Import Base.Util Model.Group Proofs.GroupInv Proofs.GroupInvH Proofs.GroupEsc Proofs.GroupC17.
+From AV Require Import Base.Util Model.Group Model.GroupObs Proofs.GroupInv Proofs.GroupInvH Proofs.GroupEsc Proofs.GroupC17 Proofs.GroupSettle.
 
 (* Never idle.  While the Deferred of start() is outstanding and stop() has not been called (neither by the user nor by the
    member itself after a fatal error), the member is joining (a _join_and_sync generator exists), or stable with the
@@ -121,6 +121,34 @@ Theorem C17_heartbeat_failure_is_rejoin_after_error : forall s rid k, hb_req s =
 Proof. exact hb_fail_step. Qed.
 Print Assumptions C17_heartbeat_failure_is_rejoin_after_error.
 
+(* Once faults cease the member rejoins within a bounded number of events (event-order form).
+   [live s]: started, neither stop() nor a fatal error, no non-Kafka escape.  [owed s e] (Proofs/GroupSettle.v): e is the fault-free
+   answer to what the member waits for in s - its armed join_and_sync call fires; the coordinator lookup / metadata load / JoinGroup
+   (as follower or leader, any generation and member id) / leader's partition lookup / SyncGroup (any decodable assignment) it has
+   in flight is answered ok; a consumer it asked to shut down completes.  FAIRNESS PREMISE, explicit: [owed_all s es] - the
+   environment delivers only owed events (no new faults, no heartbeat ticks / consumer failures in between).
+   Then from EVERY reachable live state: the run cannot be longer than mu s <= 7 + (consumers registered) + (consumers still
+   shutting down) events; the member stays live; as long as it is not stable something is owed (no deadlock); and mu = 0 is
+   exactly "no join in flight and no rejoin needed", where the heartbeat looper runs.  Hence a maximal fair run ends stable after at
+   most 7 + #consumers owed events (timer, lookup, metadata, one per consumer shutdown, join, partitions, sync).
+   PARTIAL in this sense only: interleaved non-owed but harmless events (heartbeat tick and ok reply, a stale armed call firing
+   while a join is in flight) are not covered by the premise; that the consumers started at the end are those of the assignment is
+   C16_commit_identity / C16_consumers_subset_assignment. *)
+Theorem C17_settles_partial : forall grp es evs, let s := state_after grp evs in
+  live s -> owed_all s es ->
+  let s' := state_after grp (evs ++ es) in
+  (length es <= mu s)%nat /\ (mu s <= 7 + length (consumers s) + length (shutting s))%nat /\ live s' /\
+  ((0 < mu s')%nat -> exists e, owed s' e) /\
+  (mu s' = 0%nat <-> (gens s' = [] /\ rejoin_needed s' = false)) /\
+  (mu s' = 0%nat -> hb_running s' = true).
+Proof. exact settles_bounded. Qed.
+Print Assumptions C17_settles_partial.
+(* each owed event keeps the member live and strictly decreases the measure (the engine of the bound) *)
+Theorem C17_owed_event_progress : forall grp evs e, let s := state_after grp evs in
+  live s -> owed s e -> live (fst (step s e)) /\ (mu (fst (step s e)) < mu s)%nat.
+Proof. intros grp evs e. exact (owed_step _ e (reachable_Inv grp evs)). Qed.
+Print Assumptions C17_owed_event_progress.
+
 (* Coordinator lookup: no coordinator yet / CoordinatorNotAvailable / NotCoordinator retry after initial_backoff_ms, a timeout
    or any other Kafka error after fatal_backoff_ms (any state, any generator waiting for that lookup). *)
 Theorem C17_lookup_failure_retried : forall s rid r g rest, take_first (awaits (GLookup rid)) (gens s) = Some (g, rest) ->
@@ -147,6 +175,17 @@ Proof. exact leave_reply_surfaces. Qed.
 Print Assumptions C17_fatal_surfaces_after_leave.
 
 (* ---- non-vacuity: the hypotheses are met by reachable, non-trivial states ---- *)
+Example settles_nonvacuous :             (* evicted member with one consumer shutting down... here: after a rebalance, a full fair run of 7 owed events *)
+  let evs := [EStart; ELookup 0 LBroker; EMeta 1 ROk; EJoin 2 (JOk 5 7 0); ESync 3 (SOk [(0, 1)]); ETick; EHbReply 4 (RFail KRebalance)] in
+  let es := [EFire 0; ELookup 5 LBroker; EMeta 6 ROk; ECShut 0 true; EJoin 7 (JOk 6 7 1); EParts 8 POk; ESync 9 (SOk [(0, 1); (0, 2)])] in
+  mu (state_after true evs) = 8%nat /\ mu (state_after true (evs ++ es)) = 0%nat /\
+  length (consumers (state_after true (evs ++ es))) = 2%nat /\ hb_running (state_after true (evs ++ es)) = true /\
+  live (state_after true evs) /\ owed_all (state_after true evs) es.
+Proof.
+  split; [vm_compute; reflexivity|]. split; [vm_compute; reflexivity|]. split; [vm_compute; reflexivity|]. split; [vm_compute; reflexivity|].
+  split; [vm_compute; repeat split; auto; discriminate|].
+  vm_compute. repeat (split; [eauto 10|]). auto.
+Qed.
 Example retriable_nonvacuous :           (* a commit rejected with ILLEGAL_GENERATION in a stable member with two consumers *)
   let s := state_after true [EStart; ELookup 0 LBroker; EMeta 1 ROk; EJoin 2 (JOk 5 7 0); ESync 3 (SOk [(0, 1); (1, 0)])] in
   stopping s = false /\ dc s = DcNone /\ snd (rejoin_after_error KIllGen s) = [OStopC 0; OStopC 1; OSched TRejoin DRetry 0].
